@@ -333,6 +333,8 @@ def streams_for(pid, tier):
         "numeric": 2000 if q else 50000,
         "trunc": 6000 if q else 200000,
         "open": 4000 if q else 100000,
+        "nl": 5000 if q else 150000,
+        "mb": 4000 if q else 100000,
     }
     return base
 
